@@ -110,6 +110,13 @@ def _single_def(b, l):
     return ds[0] if len(ds) == 1 else None
 
 
+_NAMED_INTS = {}      # named integer constants met while rendering sites (a reviewed `[..12]` is the same site as `[..HASH12_LEN]`)
+
+
+def _fold_named(detail):
+    return re.sub(r"\b[A-Z][A-Z0-9_]+\b", lambda m: str(_NAMED_INTS[m.group(0)]) if m.group(0) in _NAMED_INTS else m.group(0), detail)
+
+
 def srcname(b, op, depth=0):
     """Source-level-ish, refactor-stable rendering of an operand: named locals / parameters / field paths / constants."""
     if depth > 12:
@@ -117,6 +124,8 @@ def srcname(b, op, depth=0):
     if "k" in op:
         cv = T.const_value(op["k"])
         if cv[2]:
+            if isinstance(cv[1], int) and not isinstance(cv[1], bool):
+                _NAMED_INTS[cv[2].rsplit("::", 1)[-1]] = cv[1]
             return cv[2].rsplit("::", 1)[-1]
         v = cv[1]
         if isinstance(v, (int, str)) and not isinstance(v, bool):
@@ -235,7 +244,8 @@ def discharge(P, ctxs, ob):
             if g.le(inn, ln, lo - io - 1):
                 return True, "index < len by dominating conditions", detail
             # container is a tail sub-slice x[a..]:  i < len(x[a..])  <=>  a + i < len(x)   (for constant i)
-            cont = T.strip(L[2]) if L[0] == "unop" else None
+            la_ = A.len_arg(L)
+            cont = T.strip(la_) if la_ is not None else None
             ki = T.fold_int(I)
             off = 0
             while cont is not None and ki is not None and cont[0] == "call" and cont[1].endswith("::index") and len(cont[2]) == 2:
@@ -832,7 +842,7 @@ def rule_sites(ctx):
         hit = None
         origin = None
         for e in rev.get((encl(fk), kind), []):
-            if _shape(e["match"]) in _shape(detail):
+            if _shape(e["match"]) in _shape(detail) or _shape(e["match"]) in _shape(_fold_named(detail)):
                 # the reviewed argument is about where the index comes from: that must not have changed
                 if "origin" in e:
                     origin = origin or _site_origin(P, ctxs, ob)
